@@ -87,6 +87,22 @@ def synthetic_inputs(tier, work, which):
             f3 = os.path.join(d, 'circ.gvf')
             cvgen.write_gvf_lines(f3, [cvgen.circ_line(ref, donor, list(range(len(donor.exons))))[1]], 'parseCIRCexplorer', 'circRNA')
             files.append(f3)
+        # two alternative-splicing insertions anchored on the same exon end with different donor segments (a retained intron and
+        # an alternative splice site inside it), each in a GVF file of its own
+        host = next((t for k, t in enumerate(txs) if pat[k] == '0' and (donor is None or t.id != donor.id)
+                     and any(b[0] - a[1] >= 9 for a, b in zip(cvgen.gene_exons(ref, t), cvgen.gene_exons(ref, t)[1:]))), None)
+        if host is not None and which == 'C06':
+            g = ref.genes[host.gene]; gseq = g.seq(ref.chroms['chr1']); ex = cvgen.gene_exons(ref, host)
+            k = next(i for i in range(len(ex) - 1) if ex[i + 1][0] - ex[i][1] >= 9)
+            ia, ib = ex[k][1], ex[k + 1][0]
+            for n_, (da, db) in enumerate(((ia, ib), (ia, ia + 3 * ((ib - ia) // 6) + 1))):
+                info = (f"TRANSCRIPT_ID={host.id};DONOR_GENE_ID={host.gene};DONOR_START={da + 1};DONOR_END={db};"
+                        f"GENE_SYMBOL={g.name};GENOMIC_POSITION=chr1:1-2")
+                line = '\t'.join([host.gene, str(ia), f'RI_{da}-{db}', gseq[ia - 1], '<INS>', '.', '.', info])
+                fa = os.path.join(d, f'as{n_}.gvf')
+                with open(fa, 'w') as fh:
+                    fh.write(cvgen.AS_HEAD.format(parser='parseRMATS', source='AltSplicing') + line + '\n')
+                files.append(fa)
         out.append(dict(name=f'synth_{pat}', gvfs=[], light=(which == 'C06'), opts=dict(min_length=4, miscleavage='1', min_mw='0.00005'),
                         ref=paths, files=files))
     return out
@@ -445,6 +461,8 @@ def check_c06(tier):
         nsplit = 2 if tier == 'quick' else 6
         if inp.get('light'):
             nsplit = 0
+            if len(inp['files']) > 1:
+                add('files_reversed', files=list(reversed(inp['files'])), threads=1)
         for k in range(nsplit):
             d = os.path.join(work, f"{inp['name']}_split{k}"); os.makedirs(d, exist_ok=True)
             files = split_files(inp['files'], 2 + k % 2, d, f"{inp['name']}{k}")
